@@ -3,6 +3,8 @@ results logged as integers only."""
 import os
 import sys
 import math
+import json
+import zlib
 import warnings
 
 from . import tracer   # sets sys.path to the repository under test
@@ -51,16 +53,24 @@ def c17_long(args):
 def c18_perc_rows(args):
     lo, hi = args
     from ampycloud import wmo
-    rows, arr = [], []
+    rows, arr, arr2 = [], [], []
     for m in range(lo, hi + 1):
         row = []
         for n in range(m + 1):
             k, v = _kind(wmo.perc2okta, n / m * 100)
             row.append(int(np.asarray(v).flatten()[0]) if k == 'ok' else -9)
-        k, v = _kind(wmo.perc2okta, np.array([n / m * 100 for n in range(m + 1)]))
+        percs = np.array([n / m * 100 for n in range(m + 1)])
+        k, v = _kind(wmo.perc2okta, percs)
         arr.append([int(x) for x in v] if k == 'ok' else [-9] * (m + 1))
+        # the caller keeps using its array: the whole array again, then one element of it (the oktas belong to the percentages)
+        k, v = _kind(wmo.perc2okta, percs)
+        again = [int(x) for x in v] if k == 'ok' else [-9] * (m + 1)
+        k, v = _kind(wmo.perc2okta, percs[m])
+        if k != 'ok' or int(np.asarray(v).flatten()[0]) != row[m]:
+            again[m] = -9
+        arr2.append(again)
         rows.append(row)
-    return {'lo': lo, 'hi': hi, 'rows': rows, 'arr': arr}
+    return {'lo': lo, 'hi': hi, 'rows': rows, 'arr': arr, 'arr2': arr2}
 
 
 def _hcode(h):
@@ -187,6 +197,35 @@ def _build_screen_obj(f):
     raise ValueError(o)
 
 
+_SEED_FRAMES = {}
+
+
+def _derived_screen_obj(f, src):
+    """ the frame of _build_screen_obj(f), obtained from a previously screened frame by row selection, column assignment, column
+    addition and column removal (pandas carries frame metadata along these operations) """
+    import pandas as pd
+    from ampycloud.utils import utils as autils
+    from ampycloud.data import CeiloChunk
+    target = _build_screen_obj(f)
+    valid = pd.DataFrame({'ceilo': pd.Series(['z', 'z'], dtype=pd.StringDtype()), 'dt': [-15.0, 0.0], 'height': [1000.0, 1010.0], 'type': [1, 1]})
+    if src not in _SEED_FRAMES:
+        with warnings.catch_warnings():
+            warnings.simplefilter('ignore')
+            _SEED_FRAMES[src] = autils.check_data_consistency(valid) if src == 'checked' else CeiloChunk(valid, prms={'MSA': None}).data
+    seedf = _SEED_FRAMES[src].copy(deep=True)
+    d = seedf.iloc[[0] * len(target)].reset_index(drop=True)
+    for col in list(d.columns):
+        if col in target.columns:
+            d[col] = target[col].values
+        else:
+            d = d.drop(columns=[col])
+    for col in target.columns:
+        if col not in d.columns:
+            d[col] = target[col].values
+    d.index = target.index
+    return d[list(target.columns)]
+
+
 def screen_case(f):
     import copy
     import pandas as pd
@@ -234,15 +273,26 @@ def screen_case(f):
     # "... (and therefore chunk construction) raises exactly when ...": with no MSA and with an MSA below every height
     cons = []
     from ampycloud.data import CeiloChunk
-    for msa in (None, 50):
-        arg2 = _build_screen_obj(f)
+
+    def attempt(route, msa, fn):
         try:
             with warnings.catch_warnings():
                 warnings.simplefilter('ignore')
-                CeiloChunk(arg2, prms={'MSA': msa, 'MSA_HIT_BUFFER': 0})
-            cons.append({'msa': -1 if msa is None else msa, 'res': 'ok', 'exc': ''})
+                fn()
+            cons.append({'route': route, 'msa': -1 if msa is None else msa, 'res': 'ok', 'exc': ''})
         except Exception as e:
-            cons.append({'msa': -1 if msa is None else msa, 'res': 'exc', 'exc': type(e).__name__})
+            cons.append({'route': route, 'msa': -1 if msa is None else msa, 'res': 'exc', 'exc': type(e).__name__})
+    for msa in (None, 50):
+        arg2 = _build_screen_obj(f)
+        attempt('fresh', msa, lambda: CeiloChunk(arg2, prms={'MSA': msa, 'MSA_HIT_BUFFER': 0}))
+    # the verdict depends on the frame, not on its history: the same frame obtained with ordinary pandas operations from a frame
+    # that passed the check before (the returned frame of a valid input), and from the data held by a chunk
+    if isinstance(_build_screen_obj(f), pd.DataFrame):
+        for src in (('checked', 'chunkdata') if zlib.crc32(json.dumps(f, sort_keys=True).encode()) % 4 == 0 else ('checked',)):
+            arg3 = _derived_screen_obj(f, src)
+            attempt('derived-' + src + '-check', None, lambda: autils.check_data_consistency(arg3))
+            arg4 = _derived_screen_obj(f, src)
+            attempt('derived-' + src + '-construct', None, lambda: CeiloChunk(arg4, prms={'MSA': None}))
     return {'f': f, 'res': res, 'exc': exc, 'o': o, 'cons': cons}
 
 
@@ -253,7 +303,7 @@ def _rat(x):
     from fractions import Fraction
     if x is None or (isinstance(x, float) and math.isnan(x)):
         return [0, 0]
-    fr = Fraction(float(x)).limit_denominator(100000)
+    fr = Fraction(float(x)).limit_denominator(40000)
     if abs(float(fr) - float(x)) > 1e-9 * max(1.0, abs(float(x))):
         raise ValueError(f'not a small rational: {x!r}')
     return [fr.numerator, fr.denominator]
